@@ -41,6 +41,7 @@ func checkC20(r *core.Run) {
 		c20ClassIndex(r, p, sfx)
 		c20Retire(r, p, sfx)
 		c20LiveCount(r, p, sfx)
+		c20RelocateCopyAfterHeader(r, p, sfx)
 		if arch == "" {
 			c20Req(r, p)
 			c20Links(r, p)
@@ -1140,4 +1141,78 @@ func c20PrivateTestMirrorsMalloc(r *core.Run, p *core.Program, rule string) {
 		}
 	}
 	r.Check(n >= 2, rule, "private-test/sites", "-", fmt.Sprintf("%d calls of the private free path", n), fmt.Sprintf("%d calls of the private free path found (expected Free and uintptrFree)", n))
+}
+
+// c20RelocateCopyAfterHeader: when the defragmenter moves a live record, the bytes are copied with
+// copy(*ns, *os), where ns is the new slot read as a []byte header.  copy moves min(len(dst), len(src)) bytes,
+// so the new slot's header (Data and Len) must have been written before the copy: the slot's memory holds
+// whatever was there before (a free-list link, or zero in a never-used slot), and with Len still 0 nothing is
+// copied although the relocation callback is told the record now lives there.  Rule: every builtin copy in
+// defragClass whose destination is read through a pointer converted from a raw address is preceded, on the
+// same way, by stores to the Data and Len fields of the header at that address.
+func c20RelocateCopyAfterHeader(r *core.Run, p *core.Program, sfx string) {
+	const rule = "R-C20-links"
+	key := "defrag/copy-after-header" + sfx
+	fn := p.Func(c20Pkg + ".(*Allocator).defragClass")
+	if fn == nil {
+		r.Fail(rule, key, "-", "defragClass not found")
+		return
+	}
+	idx := func(i ssa.Instruction) int {
+		for k, x := range i.Block().Instrs {
+			if x == i {
+				return k
+			}
+		}
+		return -1
+	}
+	before := func(a, b ssa.Instruction) bool {
+		if a.Block() == b.Block() {
+			return idx(a) < idx(b)
+		}
+		return a.Block().Dominates(b.Block())
+	}
+	n, bad := 0, ""
+	an.Instrs(fn, func(i ssa.Instruction) {
+		c, ok := i.(*ssa.Call)
+		if !ok {
+			return
+		}
+		if b, ok := c.Call.Value.(*ssa.Builtin); !ok || b.Name() != "copy" {
+			return
+		}
+		ld, ok := c.Call.Args[0].(*ssa.UnOp)
+		if !ok || ld.Op != token.MUL {
+			return
+		}
+		root := c20Strip(ld.X)
+		if root == ld.X {
+			return // an ordinary slice variable, not a header laid over raw memory
+		}
+		n++
+		have := map[string]bool{}
+		an.Instrs(fn, func(j ssa.Instruction) {
+			st, ok := j.(*ssa.Store)
+			if !ok {
+				return
+			}
+			fa, ok := st.Addr.(*ssa.FieldAddr)
+			if !ok || c20Strip(fa.X) != root {
+				return
+			}
+			if before(st, c) {
+				have[an.FieldNameOf(fa)] = true
+			}
+		})
+		for _, f := range []string{"Data", "Len"} {
+			if !have[f] {
+				bad = fmt.Sprintf("the record is copied into its new slot at %s before the slot's header field %s is set: copy moves min(len(dst), len(src)) bytes and the destination length is whatever the slot held before", p.Pos(c.Pos()), f)
+			}
+		}
+	})
+	if n == 0 {
+		r.OK(rule, key, p.Pos(fn.Pos()), "defragClass copies no record through a slice header laid over a raw slot address")
+		return
+	}
+	r.Check(bad == "", rule, key, p.Pos(fn.Pos()), fmt.Sprintf("%d relocation copy(ies), each after the new header's Data and Len are written", n), bad)
 }
